@@ -617,6 +617,72 @@ func (tr *taskRunner) histMulti(c1, c2 *taskCfg, spans [][2]int) {
 	}
 }
 
+// mixed: one batch task whose source has several |query (InfluxQL) and |queryFlux
+// children, given in script order (kind "ql" with its FROM databases, or "flux").
+// Only BatchQueries is called: it runs checkDBRPs and asks every child for its
+// queries; nothing is started, so no Flux code runs.
+type childCfg struct {
+	flux bool
+	srcs []string
+}
+
+func (tr *taskRunner) mixed(declared []string, children []childCfg) {
+	tr.n++
+	var b strings.Builder
+	kids := []any{}
+	for i, ch := range children {
+		if ch.flux {
+			fmt.Fprintf(&b, "var n%d = batch\n  |queryFlux('from(bucket:\"b\") |> range(start: -1m)')\n    .period(10s)\n    .every(10s)\n  |log().prefix('f%d')\n", i, i)
+			kids = append(kids, rt.M{"kind": "flux", "srcs": []any{}})
+			continue
+		}
+		c := &taskCfg{Sources: ch.srcs, Meas: fmt.Sprintf("m%dn%d", tr.n, i)}
+		fmt.Fprintf(&b, "var n%d = batch\n  |query('SELECT v FROM %s')\n    .period(10s)\n    .every(10s)\n  |log().prefix('q%d')\n", i, c.fromClause(), i)
+		kids = append(kids, rt.M{"kind": "ql", "srcs": strs(ch.srcs)})
+	}
+	script := b.String()
+	dc := &taskCfg{Declared: declared}
+	task, err := tr.env.TM.NewTask(fmt.Sprintf("t%d", tr.n), script, kapacitor.BatchTask, dc.dbrps(), 0, nil)
+	if err != nil {
+		rt.Fatalf("NewTask: %v\n%s", err, script)
+	}
+	et, err := kapacitor.NewExecutingTask(tr.env.TM, task)
+	if err != nil {
+		rt.Fatalf("NewExecutingTask: %v\n%s", err, script)
+	}
+	t := tr.t
+	t.Reset(rt.M{"kind": "mixed", "script": script})
+	t.Event("Batch", rt.M{"declared": strs(declared), "children": kids, "err": ""})
+	bqs, err := et.BatchQueries(TM.T(120), TM.T(145))
+	issued := []any{}
+	nflux := 0
+	if err != nil {
+		t.Event("BQ", rt.M{"err": err.Error(), "issued": issued, "nflux": 0})
+		return
+	}
+	for _, bq := range bqs {
+		if len(bq.FluxQueries) > 0 {
+			nflux++ // a Flux child; every child ticks twice in the span
+			continue
+		}
+		srcs := map[string]bool{}
+		first := []any{}
+		for k, q := range bq.Queries {
+			cl := observe(q.String(), TM, encMap(TM)).clauses(TM.Unit)["srcs"].([]any)
+			if k == 0 {
+				first = cl
+			}
+			srcs[fmt.Sprint(cl)] = true
+		}
+		if len(srcs) != 1 {
+			first = append(first, "?inconsistent")
+		}
+		issued = append(issued, first)
+	}
+	t.Event("BQ", rt.M{"err": "", "issued": issued, "nflux": nflux})
+	t.Distinct(fmt.Sprintf("mixed|%v|%v", declared, kids))
+}
+
 // histNow: BatchQueries(start, zero time): the span ends at the wall clock.  Model
 // time is seconds from an epoch a whole number of minutes in the past; the
 // driver logs the whole second before and after each call.
@@ -864,7 +930,43 @@ func runTasks(r *rt.Run, t *rt.Trace) error {
 			tr.live(&c2, 0)
 		}
 	}
-	nDBRP := tr.n - nHist
+	// mixed Flux / InfluxQL children of one batch source: 1-2 |queryFlux and 1-2 |query nodes, both
+	// orders and interleaved, each |query reading a declared or an undeclared database
+	nMixed := 0
+	{
+		fl := childCfg{flux: true}
+		ql := func(s ...string) childCfg { return childCfg{srcs: s} }
+		qlSides := [][]childCfg{}
+		for _, a := range [][]string{{"db.rp"}, {"other.rp"}, {"db.rp", "other.rp"}} {
+			qlSides = append(qlSides, []childCfg{ql(a...)})
+			for _, b := range [][]string{{"db.rp"}, {"other.rp"}} {
+				qlSides = append(qlSides, []childCfg{ql(a...), ql(b...)})
+			}
+		}
+		var lists [][]childCfg
+		for _, qs := range qlSides {
+			for nf := 1; nf <= 2; nf++ {
+				fs := []childCfg{fl, fl}[:nf]
+				lists = append(lists, append(append([]childCfg{}, qs...), fs...)) // |query nodes written first
+				lists = append(lists, append(append([]childCfg{}, fs...), qs...)) // |queryFlux nodes written first
+				if len(qs) == 2 {
+					lists = append(lists, []childCfg{qs[0], fl, qs[1]}) // interleaved
+					if nf == 2 {
+						lists = append(lists, []childCfg{fl, qs[0], fl, qs[1]}, []childCfg{qs[0], fl, qs[1], fl})
+					}
+				}
+			}
+		}
+		lists = append(lists, []childCfg{fl}, []childCfg{fl, fl})
+		for _, d := range [][]string{{"db.rp"}, {"db.rp", "other.rp"}, {"db.rp2"}} {
+			for _, l := range lists {
+				tr.mixed(d, l)
+				nMixed++
+			}
+		}
+	}
+	r.Extra["task_traces_mixed_flux"] = nMixed
+	nDBRP := tr.n - nHist - nMixed
 	// seeded random settings and spans
 	nRand := 40
 	if r.Thorough() {
@@ -948,6 +1050,6 @@ func Run(r *rt.Run) error {
 	if err := runTasks(r, t); err != nil {
 		return err
 	}
-	r.Finish("Query objects: real NewQuery/SetStartTime/SetStopTime/Clone/String over every WHERE shape of {leaf, AND, OR, parentheses} up to depth 2 (plain and with each leaf replaced by each user time predicate), depth-3 shapes, and seeded random ones; batch tasks: real ExecutingTask.BatchQueries for every()/align()/cron()/offset/period settings over every phase of the start time and several span lengths, group-by/fill variants, declared-vs-queried DBRPs through BatchQueries and StartBatching, seeded random settings, and the real tickers run against a fake InfluxDB client; every issued statement is re-parsed with influxql and judged by TLC; non-trivial = condition with >= 2 atoms / call returning >= 2 queries, distinct by input", false)
+	r.Finish("Query objects: real NewQuery/SetStartTime/SetStopTime/Clone/String over every WHERE shape of {leaf, AND, OR, parentheses} up to depth 2 (plain and with each leaf replaced by each user time predicate), depth-3 shapes, and seeded random ones; batch tasks: real ExecutingTask.BatchQueries for every()/align()/cron()/offset/period settings over every phase of the start time and several span lengths, group-by/fill variants, declared-vs-queried DBRPs through BatchQueries and StartBatching (also for batch sources mixing |query and |queryFlux children in every order), seeded random settings, and the real tickers run against a fake InfluxDB client; every issued statement is re-parsed with influxql and judged by TLC; non-trivial = condition with >= 2 atoms / call returning >= 2 queries, distinct by input", false)
 	return nil
 }
